@@ -153,6 +153,54 @@ CONTRACTS = [DimInit(), DimLen(), DimUnlimited(), IsUnlimited(),
              DelAttr()] + [CopyDimension(a, b) for a in (False, True) for b in (False, True)]
 
 
+import z3
+V = 'core/_variables.py'
+
+
+class VariableNew(Contract):
+    """allocation lemma: a variable created without values= has, for every axis, the length of the
+    parent's dimension of that name, carries the dimension names in order, and owns a fresh zero buffer"""
+    prop = 'C01'
+
+    def __init__(self, cls, rank):
+        self.cls, self.rank = cls, rank
+        self.target = V + '::%s.__new__' % cls
+        self.name = '%s.__new__[rank %d]' % (cls, rank)
+
+    def inputs(self, ctx, I):
+        from pyvc import frontend
+        names = ['t', 'z', 'y', 'x'][:self.rank]
+        self.lens = {d: ctx.fresh('len_' + d) for d in ['t', 'z', 'y', 'x', 'unused']}
+        f = pnc_file(I, dimensions={d: dim_obj(I, d, n) for d, n in self.lens.items()})
+        mod = frontend.load(V)
+        node, _ = mod.find(self.cls)
+        return dict(subtype=I.classref(mod, node), parent=f, name='v', typecode='f', dimensions=tuple(names),
+                    kwds=dict(units='ppb', long_name='v'))
+
+    def call_args(self, inp):
+        return [inp['subtype'], inp['parent'], inp['name'], inp['typecode'], inp['dimensions']], dict(inp['kwds'])
+
+    def requires(self, inp):
+        return And(*[ge(n, 0) for n in self.lens.values()])
+
+    def ensures(self, inp, res, I):
+        from pyvc.nparr import SArr
+        if not isinstance(res, SArr):
+            return [('returns-array', False)]
+        names = inp['dimensions']
+        out = [('rank', len(res.shape) == len(names)), ('dimension-names-in-order', res.attrs.get('dimensions') == tuple(names))]
+        for i, d in enumerate(names):
+            out.append(('axis[%d]=len(dimension %s)' % (i, d), eq(res.shape[i], self.lens[d])))
+        q = tuple(z3.Int('q%d' % i) for i in range(len(names)))
+        out.append(('fresh-zero-buffer', eq(res.get(q), 0) if names else True))
+        out.append(('attributes-set', res.attrs.get('units') == 'ppb' and res.attrs.get('long_name') == 'v'))
+        out.append(('parent-recorded', res.attrs.get('_parent') is inp['parent']))
+        return out
+
+
+CONTRACTS += [VariableNew(c, r) for c in ('PseudoNetCDFVariable', 'PseudoNetCDFMaskedVariable') for r in (0, 1, 2, 4)]
+
+
 # ---------------------------------------------------------------------------
 # bounded stand-in
 # ---------------------------------------------------------------------------
@@ -226,7 +274,7 @@ def bounded_replay(p):
 META = dict(
     level='other',
     technique='contracts proved on the dimension/attribute book-keeping (pyvc) + bounded run-time contract wf(result) over operation sequences',
-    text='Proved (all inputs): dimension objects store length/flag, attribute list book-keeping of __setattr__/__delattr__, '
+    text='Proved (all inputs): dimension objects store length/flag, attribute list book-keeping of __setattr__/__delattr__, allocation of plain and masked variables from the parent dimension lengths (ranks 0,1,2,4; symbolic lengths), '
          'copyDimension length and unlimited-flag propagation. Bounded (never counted as proved): wf(result) checked at run '
          'time on the real operations for all catalogue sequences up to the stated length; numpy shape semantics cannot be '
          'proved without modelling numpy.',
